@@ -1,3 +1,4 @@
+import SqlObjVerif.Extracted.Graph
 /-!
 # C12 — model of `SQLObject.destroySelf` over a whole reference graph
 
@@ -78,13 +79,19 @@ def Link.col (l : Link) (first : Bool) : Nat := if first then l.a else l.b
 def delLinks (t : Nat) (first : Bool) (i : Nat) (ls : List Link) : List Link :=
   ls.filter fun l => !(l.table == t && l.col first == i)
 
-/-- step 1: the victim's own related joins -/
+/-- the physical column (`true` = first) that a join's `joinColumn` / `otherColumn` denotes -/
+def _root_.SqlObjVerif.Extracted.Graph.JCol.first (ownFirst : Bool) : Extracted.Graph.JCol → Bool
+  | .joinColumn => ownFirst
+  | .otherColumn => !ownFirst
+
+/-- step 1: the victim's own related joins; the column is the one named in the **extracted** DELETE -/
 def delOwnLinks (S : Schema) (c i : Nat) (ls : List Link) : List Link :=
-  (S.cls c).joins.foldl (fun ls j => delLinks j.table j.ownFirst i ls) ls
+  (S.cls c).joins.foldl (fun ls j => delLinks j.table (Extracted.Graph.ownDeleteCol.first j.ownFirst) i ls) ls
 
 /-- step 2a: joins of dependent class `k` whose other side is the victim's class -/
 def delDepLinks (S : Schema) (k c i : Nat) (ls : List Link) : List Link :=
-  (S.cls k).joins.foldl (fun ls j => if j.other == c then delLinks j.table (!j.ownFirst) i ls else ls) ls
+  (S.cls k).joins.foldl (fun ls j =>
+    if j.other == c then delLinks j.table (Extracted.Graph.depDeleteCol.first j.ownFirst) i ls else ls) ls
 
 /-- `findDependantColumns(name, klass)`: indices of the keys of `k` to class `c` with a policy -/
 def depCols (S : Schema) (c k : Nat) : List Nat :=
@@ -172,6 +179,10 @@ def destroyStep (S : Schema) (rec : DB → Nat → Nat → Res) (db : DB) (c i :
 def destroy (S : Schema) : Nat → DB → Nat → Nat → Res
   | 0 => fun db _ _ => .fuel db
   | n + 1 => destroyStep S (destroy S n)
+
+/-- `obj.destroySelf()` when the interpreter's recursion limit exceeds the number of rows (one activation per row
+    of a cascade chain is all acyclic data can need, `C12_destroy_terminates_of_acyclic`) -/
+def destroySelf (S : Schema) (db : DB) (c i : Nat) : Res := destroy S (db.rows.length + 1) db c i
 
 /-- `Class.get(id)` afterwards: a cached instance is returned without looking at the table -/
 def reachable (db : DB) (c i : Nat) : Bool := db.cache.contains (c, i) || present db c i
